@@ -321,6 +321,14 @@ func TestC05(t *testing.T) {
 			}
 		}
 
+		if kf.Listed(idCorrSub) && nSub > 0 && len(q.From) > 1 {
+			// region of C05-correlated-subquery-filter-misplaced (while listed): p contains a
+			// correlated subquery and Q joins several tables, so a conjunct of p may read one of
+			// them only through the subquery
+			st.Excluded(idCorrSub)
+			return
+		}
+
 		f := fx.New(fx.Opts{})
 		defer f.Close()
 		s := f.NewSession("", "", "")
